@@ -3,16 +3,26 @@
  * make_intersection, contains(const UnfoldingEvent*), is_subset_of, empty, EventSet(std::unordered_set&&).
  * Universe: NU events; every pair of subsets A, B of it (membership bits symbolic). The abstract view of a set is its
  * membership vector over the universe; "no duplicates" is part of every obligation (size == number of members).
- * NOT covered here (see check.json): History, Configuration, maximal_subsets_iterator, conflicts.                  */
-#include "gen.h"
-#include "gen.c"
-
+ * Causal layer (second half of this file): EventSet::get_topological_ordering, History::Iterator (constructor,
+ * increment, dereference) over a universe of NC events with a SYMBOLIC acyclic immediate-cause relation, the sets
+ * built in EVERY insertion order (= every iteration order the set model can show).
+ * NOT covered here (see check.json): Configuration, maximal_subsets_iterator, conflicts.                            */
 #ifndef NU
 #define NU 4
 #endif
-_Static_assert(NU <= VF_CAP, "universe must fit the set model capacity");
-
+#if defined(H_topo_order) || defined(H_history_increment) || defined(H_history_full)
+#ifndef NC
+#define NC 3 /* events of the causal universe */
+#endif
+#define VF_SET_EXACT NC /* set model find/erase exact and loop-free; an assertion checks that no set outgrows the universe */
+#undef VF_CAP
+#define VF_CAP (NC + 1) /* capacity of the containers the units create: one more than any of them can hold here */
+#endif
+#include "gen.h"
+#include "gen.c"
 _Bool nondet_bool(void);
+#ifdef H_set_algebra
+_Static_assert(NU <= VF_CAP, "universe must fit the set model capacity");
 struct UnfoldingEvent g_ev[NU];
 struct UnfoldingEvent* g_ka[NU];
 struct UnfoldingEvent* g_kb[NU];
@@ -51,7 +61,6 @@ static unsigned occurrences(const struct EventSet* s, int i)
     __CPROVER_assert((S).events_.n == cnt, LABEL_TEXT ": no foreign element");                                        \
   } while (0)
 
-#ifdef H_set_algebra
 void harness(void)
 {
   vf_exc = 0;
@@ -76,6 +85,300 @@ void harness(void)
   CHECK_SET(A, inA[i], "operands unchanged"); /*@ operands_unchanged */
   CHECK_SET(B, inB[i], "operands unchanged"); /*@ operands_unchanged */
   __CPROVER_assert(vf_exc == 0, "nothing raised"); /*@ never_fails */
+  VF_CANARY_POINT;
+}
+#endif
+
+/* ==================================================================================================================
+ * Causal layer. Universe: NC events e0 < ... (index order is a linear extension of causality, w.l.o.g.); IC[i][j]: e_j is
+ * an immediate cause of e_i (only j < i, otherwise symbolic); LT[j][i]: e_j < e_i (transitive closure of IC).
+ * Input invariant (UnfoldingEvent.hpp, definition of "immediate cause": e < e' and no e'' with e < e'' < e'):
+ * the immediate causes of one event are pairwise causally unrelated.
+ * Every object is a global of its own (no symbolic offsets into an array of structs).
+ * ================================================================================================================== */
+#if defined(H_topo_order) || defined(H_history_increment) || defined(H_history_full)
+_Static_assert(NC >= 2 && NC <= 6, "universe of 2..6 events");
+unsigned char nondet_uchar(void);
+struct UnfoldingEvent g_e0, g_e1, g_e2, g_e3, g_e4, g_e5;
+static struct UnfoldingEvent* evp(unsigned i)
+{
+  return i == 0 ? &g_e0 : i == 1 ? &g_e1 : i == 2 ? &g_e2 : i == 3 ? &g_e3 : i == 4 ? &g_e4 : &g_e5;
+}
+_Bool IC[NC][NC], LT[NC][NC];
+struct UnfoldingEvent* g_ics0[NC];
+struct UnfoldingEvent* g_ics1[NC];
+struct UnfoldingEvent* g_ics2[NC];
+struct UnfoldingEvent* g_ics3[NC];
+struct UnfoldingEvent* g_ics4[NC];
+struct UnfoldingEvent* g_ics5[NC];
+static struct UnfoldingEvent** ic_store(unsigned i)
+{
+  return i == 0 ? g_ics0 : i == 1 ? g_ics1 : i == 2 ? g_ics2 : i == 3 ? g_ics3 : i == 4 ? g_ics4 : g_ics5;
+}
+
+/* the set with membership vector `in`, its members inserted in ANY order (order drawn nondeterministically) */
+static void build_any_order(struct EventSet* s, struct UnfoldingEvent** store, const _Bool* in)
+{
+  size_t n = 0;
+  _Bool done[NC];
+  for (int i = 0; i < NC; i++)
+    done[i] = 0;
+  for (int p = 0; p < NC; p++) {
+    unsigned char c = nondet_uchar();
+    __CPROVER_assume(c < NC);
+    if (in[c] && !done[c]) {
+      store[n++] = evp(c);
+      done[c]    = 1;
+    }
+  }
+  for (int i = 0; i < NC; i++)
+    __CPROVER_assume(!in[i] || done[i]);
+  s->events_.k   = store;
+  s->events_.n   = n;
+  s->events_.cap = NC;
+}
+static unsigned occ(const struct EventSet* s, int i)
+{
+  unsigned c = 0;
+  struct UnfoldingEvent* e = evp(i);
+  for (size_t p = 0; p < NC; p++)
+    if (p < s->events_.n && s->events_.k[p] == e)
+      c++;
+  return c;
+}
+/* S has exactly the members given by the vector M (each once, nothing else) */
+static _Bool set_is(const struct EventSet* s, const _Bool* m)
+{
+  size_t cnt = 0;
+  _Bool ok   = 1;
+  for (int i = 0; i < NC; i++) {
+    if (occ(s, i) != (m[i] ? 1u : 0u))
+      ok = 0;
+    cnt += m[i];
+  }
+  return ok && s->events_.n == cnt;
+}
+static void setup_universe(void)
+{
+  vf_exc = 0;
+  for (int i = 0; i < NC; i++)
+    for (int j = 0; j < NC; j++) {
+      IC[i][j] = j < i ? nondet_bool() : 0;
+      LT[i][j] = 0;
+    }
+  for (int i = 0; i < NC; i++)
+    for (int j = 0; j < NC; j++)
+      LT[j][i] = IC[i][j];
+  for (int k = 0; k < NC; k++)
+    for (int i = 0; i < NC; i++)
+      for (int j = 0; j < NC; j++)
+        if (LT[i][k] && LT[k][j])
+          LT[i][j] = 1;
+  for (int i = 0; i < NC; i++)
+    for (int j = 0; j < NC; j++)
+      for (int k = 0; k < NC; k++)
+        __CPROVER_assume(!(IC[i][j] && IC[i][k] && LT[j][k])); /* immediate causes are pairwise unrelated */
+  for (int i = 0; i < NC; i++) {
+    /* CBMC 6.11 reads garbage through a pointer to a ROW of a 2-D array indexed symbolically: hand over a 1-D copy */
+    _Bool row[NC];
+    for (int j = 0; j < NC; j++)
+      row[j] = IC[i][j];
+    build_any_order(&evp(i)->immediate_causes, ic_store(i), row);
+  }
+}
+#endif
+
+#ifdef H_topo_order
+/* EventSet::get_topological_ordering (EventSet.hpp): "a vector V such that for every pair of events e, e' in C, if e < e'
+ * then i(e) < i(e')" - for ANY set C (causally closed or not; `<` is full causality, also through events outside of C)
+ * - and V holds every event of C exactly once. */
+struct UnfoldingEvent* g_ks[NC];
+struct EventSet S;
+_Bool inS[NC];
+void harness(void)
+{
+  setup_universe();
+  for (int i = 0; i < NC; i++)
+    inS[i] = nondet_bool();
+  build_any_order(&S, g_ks, inS);
+  struct vf_seq_UnfoldingEventP R = EventSet__get_topological_ordering(&S);
+  __CPROVER_assert(vf_exc == 0, "no cycle reported on an acyclic event structure"); /*@ topo_accepts_acyclic_structure */
+  __CPROVER_assert(R.n <= NC && R.h == 0, "ordering no longer than the universe"); /*@ topo_is_permutation_of_the_set */
+  size_t pos[NC];
+  size_t members = 0;
+  for (int i = 0; i < NC; i++) {
+    unsigned c = 0;
+    pos[i]     = NC;
+    for (size_t p = 0; p < NC; p++)
+      if (p < R.n && R.d[p] == evp(i)) {
+        c++;
+        pos[i] = p;
+      }
+    __CPROVER_assert(c == (inS[i] ? 1u : 0u), "every event of the set exactly once, no other event");
+    /*@ topo_is_permutation_of_the_set */
+    members += inS[i];
+  }
+  __CPROVER_assert(R.n == members, "ordering has the size of the set"); /*@ topo_is_permutation_of_the_set */
+  for (int i = 0; i < NC; i++)
+    for (int j = 0; j < NC; j++)
+      __CPROVER_assert(!(inS[i] && inS[j] && LT[j][i]) || pos[j] < pos[i], "e < e' implies index(e) < index(e')");
+  /*@ topo_every_cause_in_the_set_comes_first */
+  __CPROVER_assert(set_is(&S, inS), "the set itself is unchanged"); /*@ topo_leaves_the_set_unchanged */
+  VF_CANARY_POINT;
+}
+#endif
+
+#if defined(H_history_increment) || defined(H_history_full)
+struct UnfoldingEvent* g_kf[NC];
+struct UnfoldingEvent* g_kv[NC];
+struct UnfoldingEvent* g_km[NC];
+struct UnfoldingEvent* g_kc[NC];
+struct UnfoldingEvent* g_ks[NC];
+struct History__Iterator g_it;
+struct Configuration g_cfg;
+struct EventSet S;
+_Bool inS[NC], inF[NC], inV[NC], inM[NC], inC[NC], CL[NC];
+static void closure_of_S(void)
+{
+  for (int i = 0; i < NC; i++) {
+    CL[i] = inS[i];
+    for (int j = 0; j < NC; j++)
+      if (inS[j] && LT[i][j])
+        CL[i] = 1;
+  }
+}
+/* Invariant of the traversal (History.hpp: frontier = "points from where to continue the search", current_history =
+ * what has been expanded, maximal_events = candidates; S = the initial events, C = the optional configuration):
+ *  I1 frontier and expanded events are disjoint; no expanded event lies in C
+ *  I2 every immediate cause of an expanded event is expanded, waiting in the frontier, or in C
+ *  I3 only events of the causal closure of S are met; every event of S is expanded, waiting, or in C
+ *  I4 maximal_events = the events of S that are not an immediate cause of an expanded event                          */
+static _Bool inv(const _Bool* F, const _Bool* V, const _Bool* M, _Bool has_cfg)
+{
+  _Bool ok = 1;
+  for (int i = 0; i < NC; i++) {
+    if (F[i] && V[i])
+      ok = 0;
+    if (V[i] && has_cfg && inC[i])
+      ok = 0;
+    for (int j = 0; j < NC; j++)
+      if (V[i] && IC[i][j] && !(V[j] || F[j] || (has_cfg && inC[j])))
+        ok = 0;
+    if ((F[i] || V[i]) && !CL[i])
+      ok = 0;
+    if (inS[i] && !(V[i] || F[i] || (has_cfg && inC[i])))
+      ok = 0;
+    _Bool struck = 0;
+    for (int v = 0; v < NC; v++)
+      if (V[v] && IC[v][i])
+        struck = 1;
+    if (M[i] != (inS[i] && !struck))
+      ok = 0;
+  }
+  return ok;
+}
+static void read_back(const struct EventSet* s, _Bool* out)
+{
+  for (int i = 0; i < NC; i++)
+    out[i] = occ(s, i) != 0;
+}
+#endif
+
+#ifdef H_history_increment
+/* One step of History::Iterator from ANY state satisfying the invariant: the invariant is kept, and a step taken on a
+ * non-empty frontier consumes the event the iterator designates (dereference) and expands it unless C holds it. */
+void harness(void)
+{
+  setup_universe();
+  _Bool has_cfg = nondet_bool();
+  for (int i = 0; i < NC; i++) {
+    inS[i] = nondet_bool();
+    inF[i] = nondet_bool();
+    inV[i] = nondet_bool();
+    inM[i] = nondet_bool();
+    inC[i] = nondet_bool();
+  }
+  closure_of_S();
+  __CPROVER_assume(inv(inF, inV, inM, has_cfg));
+  build_any_order(&g_it.frontier, g_kf, inF);
+  build_any_order(&g_it.current_history, g_kv, inV);
+  build_any_order(&g_it.maximal_events, g_km, inM);
+  build_any_order(&g_cfg.events_, g_kc, inC);
+  g_it.configuration.has   = has_cfg;
+  g_it.configuration.value = &g_cfg;
+  _Bool was_empty = g_it.frontier.events_.n == 0;
+  int cur         = -1;
+  if (!was_empty) {
+    struct UnfoldingEvent* e = *History__Iterator__dereference(&g_it);
+    for (int i = 0; i < NC; i++)
+      if (e == evp(i))
+        cur = i;
+    __CPROVER_assert(cur >= 0 && inF[cur], "the iterator designates an event of the frontier"); /*@ history_yields_frontier_event */
+  }
+  History__Iterator__increment(&g_it);
+  __CPROVER_assert(vf_exc == 0, "nothing raised"); /*@ history_step_never_fails */
+  _Bool F2[NC], V2[NC], M2[NC], want[NC];
+  read_back(&g_it.frontier, F2);
+  read_back(&g_it.current_history, V2);
+  read_back(&g_it.maximal_events, M2);
+  __CPROVER_assert(set_is(&g_it.frontier, F2) && set_is(&g_it.current_history, V2) && set_is(&g_it.maximal_events, M2),
+                   "the three sets hold universe events, each once"); /*@ history_step_keeps_sets_wellformed */
+  __CPROVER_assert(inv(F2, V2, M2, has_cfg), "traversal invariant kept"); /*@ history_step_keeps_traversal_invariant */
+  /* exactly-once: the designated event leaves the frontier; it is expanded now unless the configuration holds it;
+   * nothing else becomes expanded, nothing expanded is forgotten */
+  for (int i = 0; i < NC; i++)
+    want[i] = inV[i] || (i == cur && !(has_cfg && inC[cur]));
+  __CPROVER_assert(was_empty || !F2[cur], "the designated event left the frontier"); /*@ history_step_consumes_designated_event */
+  __CPROVER_assert(set_is(&g_it.current_history, want), "expanded events = old ones plus the designated event");
+  /*@ history_step_expands_exactly_the_designated_event */
+  __CPROVER_assert(set_is(&g_cfg.events_, inC), "configuration untouched"); /*@ history_step_leaves_configuration */
+  VF_CANARY_POINT;
+}
+#endif
+
+#ifdef H_history_full
+/* A whole traversal (no configuration), as History::get_all_events / get_all_maximal_events run it: construct the iterator
+ * on S, step until the frontier is empty. Every event of the causal closure of S is yielded exactly once, within
+ * |closure| steps; at the end current_history is the closure and maximal_events its maximal events by definition. */
+void harness(void)
+{
+  setup_universe();
+  for (int i = 0; i < NC; i++)
+    inS[i] = nondet_bool();
+  closure_of_S();
+  build_any_order(&S, g_ks, inS);
+  struct vf_opt_ConfigurationP none = {0, 0};
+  History__Iterator__ctor(&g_it, &S, none);
+  __CPROVER_assert(vf_exc == 0, "constructor raises nothing"); /*@ history_ctor_never_fails */
+  unsigned yielded[NC];
+  for (int i = 0; i < NC; i++)
+    yielded[i] = 0;
+  for (int step = 0; step < NC; step++) {
+    if (g_it.frontier.events_.n != 0) {
+      struct UnfoldingEvent* e = *History__Iterator__dereference(&g_it);
+      for (int i = 0; i < NC; i++)
+        if (e == evp(i))
+          yielded[i]++;
+      History__Iterator__increment(&g_it);
+    }
+  }
+  __CPROVER_assert(vf_exc == 0, "nothing raised"); /*@ history_step_never_fails */
+  __CPROVER_assert(g_it.frontier.events_.n == 0, "traversal over after at most |universe| steps"); /*@ history_terminates_within_closure_size */
+  for (int i = 0; i < NC; i++)
+    __CPROVER_assert(yielded[i] == (CL[i] ? 1u : 0u), "every event of the causal closure yielded exactly once, no other");
+  /*@ history_yields_each_closure_event_exactly_once */
+  __CPROVER_assert(set_is(&g_it.current_history, CL), "all events = causal closure of the initial events");
+  /*@ history_all_events_is_causal_closure */
+  _Bool mx[NC];
+  for (int i = 0; i < NC; i++) {
+    mx[i] = CL[i];
+    for (int j = 0; j < NC; j++)
+      if (CL[j] && LT[i][j])
+        mx[i] = 0;
+  }
+  __CPROVER_assert(set_is(&g_it.maximal_events, mx), "maximal events = closure events with no successor in the closure");
+  /*@ history_maximal_events_are_those_without_successor */
+  __CPROVER_assert(set_is(&S, inS), "initial set unchanged"); /*@ history_leaves_initial_set_unchanged */
   VF_CANARY_POINT;
 }
 #endif
